@@ -411,3 +411,182 @@ Example c20_source_nonvacuous :
   go_Precision_Scale 3 = 1000000 /\ go_ToIPv4 AddrZero = None /\
   go_ToIPv4 (go_IPv4_ToIP 3232235777) = Some 3232235777.
 Proof. vm_compute. repeat split; reflexivity. Qed.
+
+(* ==== C20y: the temporal COLUMNS' methods are TRANSLATED from the Go source too ========================
+   gen/ScalFuns.v also holds, regenerated on every run from proto/col_date.go, col_date32.go, col_datetime.go,
+   col_datetime64.go: ColDate / ColDate32 .Append .AppendArr .Row, ColDateTime .Append .AppendRaw .AppendArr
+   .Row .loc .Infer, ColDateTime64 .Append .AppendRaw .AppendArr .Row .loc .WithPrecision .WithLocation .Infer.
+   A column object is the value its pointer receiver points to (a list, or a record of its fields); a method
+   returns the new value; None = a Go panic (no precision set, index out of range); an error is [true].
+   The string parsing of Infer is NOT translated: it is the primitives of model/ScalCols.v, which are the
+   definitions of model/TypeStr.v ([parse_datetime64_params_is_typestr] below).  What is translated is what
+   Infer DOES with the parsed parameters. *)
+From CH Require Import model.TypeStr model.ScalCols.
+
+(* each translated method IS the hand model of model/ScalCols.v.  Premises: only the Go type of the rows
+   where Row converts them (DateTime is a uint32, DateTime64 an int64).  The batches' index checks and the
+   nil check of t.In(c.loc()) never fail: the only panics left are the documented ones. *)
+Theorem column_model_is_source :
+  (forall c v, go_ColDate_Append c v = col_date_AppendV c v) /\
+  (forall c vs, go_ColDate_AppendArr c vs = Some (col_date_AppendArr c vs)) /\
+  (forall loc c i, go_ColDate_Row loc c i = col_date_RowAt c i) /\
+  (forall c v, go_ColDate32_Append c v = col_date32_AppendV c v) /\
+  (forall c vs, go_ColDate32_AppendArr c vs = Some (col_date32_AppendArr c vs)) /\
+  (forall loc c i, go_ColDate32_Row loc c i = col_date32_RowAt c i) /\
+  (forall tzdb c t, go_ColDateTime_Infer tzdb c t = col_dt_Infer (parse_datetime_params tzdb t) c) /\
+  (forall loc c, go_ColDateTime_loc loc c = Some (col_dt_loc loc c)) /\
+  (forall loc c i, Forall (fun d => 0 <= d < two32) (dt_Data c) -> go_ColDateTime_Row loc c i = col_dt_RowAt loc c i) /\
+  (forall c d, go_ColDateTime_AppendRaw c d = col_dt_AppendRaw c d) /\
+  (forall c v, go_ColDateTime_Append c v = col_dt_Append c v) /\
+  (forall c vs, go_ColDateTime_AppendArr c vs = Some (col_dt_AppendArr c vs)) /\
+  (forall c p, go_ColDateTime64_WithPrecision c p = col_dt64_WithPrecision c p) /\
+  (forall c l, go_ColDateTime64_WithLocation c l = col_dt64_WithLocation c l) /\
+  (forall tzdb c t, go_ColDateTime64_Infer tzdb c t = col_dt64_Infer (parse_datetime64_params tzdb t) c) /\
+  (forall loc c, go_ColDateTime64_loc loc c = Some (col_dt64_loc loc c)) /\
+  (forall loc c i, Forall in_i64z (dt64_Data c) -> go_ColDateTime64_Row loc c i = col_dt64_RowAt loc c i) /\
+  (forall c d, go_ColDateTime64_AppendRaw c d = col_dt64_AppendRaw c d) /\
+  (forall c v, go_ColDateTime64_Append c v = col_dt64_Append c v) /\
+  (forall c vs, go_ColDateTime64_AppendArr c vs = col_dt64_AppendArr c vs).
+Proof. exact column_tie_holds. Qed.
+Print Assumptions column_model_is_source.
+
+(* AppendArr vs = the fold of Append over vs, for the four columns (DateTime64: with a precision set; without
+   one both panic, the batch even when it is empty) *)
+Theorem source_appendarr_is_fold_of_append :
+  (forall c vs, go_ColDate_AppendArr c vs = Some (fold_left go_ColDate_Append vs c)) /\
+  (forall c vs, go_ColDate32_AppendArr c vs = Some (fold_left go_ColDate32_Append vs c)) /\
+  (forall c vs, go_ColDateTime_AppendArr c vs = Some (fold_left go_ColDateTime_Append vs c)) /\
+  (forall c vs, go_ColDateTime64_AppendArr c vs =
+     if dt64_PrecisionSet c then fold_left (fun oc v => obind oc (fun c => go_ColDateTime64_Append c v)) vs (Some c)
+     else None).
+Proof. exact appendarr_fold_tie_holds. Qed.
+Print Assumptions source_appendarr_is_fold_of_append.
+
+(* after ANY history of Append / AppendArr / AppendRaw / Infer / WithPrecision / WithLocation on one
+   ColDateTime64 object (run on the translated methods; a rejected type is an error and changes nothing), the
+   object's precision, zone and flag are those of the last accepted Infer / With.. - nothing else of the
+   history survives in them *)
+Theorem source_column_params_after_history : forall tzdb h c c',
+  go_dt64_run tzdb c h = Some c' ->
+  dt64_params_of c' = fold_left (dt64_params_step tzdb) h (dt64_params_of c).
+Proof. exact go_dt64_run_params. Qed.
+Print Assumptions source_column_params_after_history.
+
+(* THE HISTORY STATEMENT (the one the seeded change C20C violates): whatever the history - values appended at
+   another precision, singly or in batches, types of another precision or zone inferred in between - the next
+   appended value is stored as its tick count at the CURRENT precision p and read back by Row as the same
+   second, the nanoseconds rounded down to the tick, in the CURRENT zone (time.Local when there is none) *)
+Theorem source_column_append_row : forall tzdb loc h c0 c v p l,
+  0 <= dt64_Precision c0 <= 9 -> Forall dt64_op_ok h ->
+  go_dt64_run tzdb c0 h = Some c ->
+  fold_left (dt64_params_step tzdb) h (dt64_params_of c0) = (p, l, true) ->
+  wf_time v -> t_IsZero v = false -> in_i64z (ticks_of v p) ->
+  exists c' b,
+    go_ColDateTime64_Append c v = Some c' /\
+    dt64_Data c' = dt64_Data c ++ [ticks_of v p] /\ dt64_params_of c' = (p, l, true) /\
+    go_ColDateTime64_Row loc c' (slice_len (dt64_Data c)) = Some b /\
+    unix b = unix v /\ nsec b = nsec v - nsec v mod precision_Scale p /\ zoff b = col_loc loc l.
+Proof. exact go_dt64_history_append_row. Qed.
+Print Assumptions source_column_append_row.
+
+(* the same for every element of a batch appended after the history *)
+Theorem source_column_appendarr_row : forall tzdb loc h c0 c vs k v p l,
+  0 <= dt64_Precision c0 <= 9 -> Forall dt64_op_ok h ->
+  go_dt64_run tzdb c0 h = Some c ->
+  fold_left (dt64_params_step tzdb) h (dt64_params_of c0) = (p, l, true) ->
+  nth_error vs k = Some v ->
+  wf_time v -> t_IsZero v = false -> in_i64z (ticks_of v p) ->
+  exists c' b,
+    go_ColDateTime64_AppendArr c vs = Some c' /\
+    dt64_Data c' = dt64_Data c ++ map (fun v => to_datetime64 v p) vs /\ dt64_params_of c' = (p, l, true) /\
+    go_ColDateTime64_Row loc c' (slice_len (dt64_Data c) + Z.of_nat k) = Some b /\
+    unix b = unix v /\ nsec b = nsec v - nsec v mod precision_Scale p /\ zoff b = col_loc loc l.
+Proof. exact go_dt64_history_appendarr_row. Qed.
+Print Assumptions source_column_appendarr_row.
+
+(* Date / Date32 batches whose values carry different zone offsets (the statement the seeded change C20A
+   violates): element k of a batch appended to ANY column lands on the calendar day it has in ITS OWN zone,
+   whatever the zones of its neighbours *)
+Theorem source_date_batch_row : forall loc c vs k v,
+  nth_error vs k = Some v -> t_IsZero v = false -> 0 <= local_day v < 65536 ->
+  exists c' b,
+    go_ColDate_AppendArr c vs = Some c' /\ c' = c ++ map to_date vs /\
+    go_ColDate_Row loc c' (slice_len c + Z.of_nat k) = Some b /\
+    b = mkT (86400 * local_day v) 0 0 /\ t_Date b = t_Date v.
+Proof. exact go_date_batch_row. Qed.
+Print Assumptions source_date_batch_row.
+
+Theorem source_date32_batch_row : forall loc c vs k v,
+  nth_error vs k = Some v -> t_IsZero v = false -> - two31 <= local_day v < two31 ->
+  exists c' b,
+    go_ColDate32_AppendArr c vs = Some c' /\ c' = c ++ map to_date32 vs /\
+    go_ColDate32_Row loc c' (slice_len c + Z.of_nat k) = Some b /\
+    b = mkT (86400 * local_day v) 0 0 /\ t_Date b = t_Date v.
+Proof. exact go_date32_batch_row. Qed.
+Print Assumptions source_date32_batch_row.
+
+Theorem source_date_append_row : forall loc c v,
+  t_IsZero v = false -> 0 <= local_day v < 65536 ->
+  go_ColDate_Row loc (go_ColDate_Append c v) (slice_len c) = Some (mkT (86400 * local_day v) 0 0).
+Proof. exact go_date_append_row. Qed.
+Print Assumptions source_date_append_row.
+
+Theorem source_date32_append_row : forall loc c v,
+  t_IsZero v = false -> - two31 <= local_day v < two31 ->
+  go_ColDate32_Row loc (go_ColDate32_Append c v) (slice_len c) = Some (mkT (86400 * local_day v) 0 0).
+Proof. exact go_date32_append_row. Qed.
+Print Assumptions source_date32_append_row.
+
+(* one ColDateTime object: after any history (which never panics) the next appended value is read back as
+   the same second in the zone of the last accepted type (time.Local when that type named none) *)
+Theorem source_datetime_column_append_row : forall tzdb loc h c0 c v,
+  Forall (fun d => 0 <= d < two32) (dt_Data c0) ->
+  (forall op d, In op h -> op = DOpAppendRaw d -> 0 <= d < two32) ->
+  go_dt_run tzdb c0 h = Some c ->
+  t_IsZero v = false -> 0 <= unix v < two32 ->
+  go_ColDateTime_Row loc (go_ColDateTime_Append c v) (slice_len (dt_Data c)) =
+  Some (mkT (unix v) 0 (col_loc loc (fold_left (dt_zone_step tzdb) h (dt_Location c0)))).
+Proof. exact go_dt_history_append_row. Qed.
+Print Assumptions source_datetime_column_append_row.
+
+(* the primitives the two Infer methods are translated up to ARE the parsing of model/TypeStr.v (C19):
+   TypeStr.datetime64_infer / datetime_infer on a fresh column, with time.LoadLocation giving the zone
+   called [name l] for the offset l the column model uses *)
+Theorem parse_datetime64_params_is_typestr : forall (tzdb : bytes -> option Z) (name : Z -> bytes) t,
+  datetime64_infer (fun s => option_map name (tzdb s)) None t =
+  match parse_datetime64_params tzdb t with
+  | Some (p, l) => rok (CDateTime64 (Z.to_N p) (option_map name l))
+  | None => Err EInvalid
+  end.
+Proof. exact parse_datetime64_params_is_TypeStr. Qed.
+Print Assumptions parse_datetime64_params_is_typestr.
+
+Theorem parse_datetime_params_is_typestr : forall (tzdb : bytes -> option Z) (name : Z -> bytes) t,
+  datetime_infer (fun s => option_map name (tzdb s)) t =
+  match parse_datetime_params tzdb t with
+  | Some l => rok (CDateTime (option_map name l))
+  | None => Err EInvalid
+  end.
+Proof. exact parse_datetime_params_is_TypeStr. Qed.
+Print Assumptions parse_datetime_params_is_typestr.
+
+(* non-vacuity: the history of the seeded change C20C, run on the translated methods.  A fresh column,
+   WithPrecision(3), Append, Infer("DateTime64(9, 'X')") with X at +3600, Append: the second value is stored in
+   nanoseconds and read back to the nanosecond in X; a Date batch of 23:30 at -1h / +1h / UTC lands on three
+   different days *)
+Example c20_columns_nonvacuous :
+  let tzdb := fun s : bytes => match s with [88%N] => Some 3600 | _ => None end in
+  let ty := [68;97;116;101;84;105;109;101;54;52;40;57;44;32;39;88;39;41]%N in
+  let c0 := mkColDT64 [] None 0 false in
+  let h := [OpWithPrecision 3; OpAppend (mkT 1700000000 123456789 0); OpInfer ty] in
+  let c := mkColDT64 [1700000000123] (Some 3600) 9 true in
+  let c' := mkColDT64 [1700000000123; 1700000001987654321] (Some 3600) 9 true in
+  go_dt64_run tzdb c0 h = Some c /\
+  go_ColDateTime64_Append c (mkT 1700000001 987654321 7200) = Some c' /\
+  go_ColDateTime64_Row 0 c' 1 = Some (mkT 1700000001 987654321 3600) /\
+  go_ColDateTime64_Row 0 c' 2 = None /\
+  go_ColDateTime64_Append c0 (mkT 1700000000 0 0) = None /\
+  go_ColDate_AppendArr [7] [mkT 84600 0 (-3600); mkT 84600 0 3600; mkT 84600 0 0] = Some [7; 0; 1; 0] /\
+  go_ColDate_Row 0 [7; 0; 1; 0] 2 = Some (mkT 86400 0 0) /\
+  snd (go_ColDateTime64_Infer tzdb c0 [68;97;116;101;84;105;109;101;54;52;40;49;48;41]%N) = true.
+Proof. vm_compute. repeat split; reflexivity. Qed.
